@@ -13,3 +13,9 @@ import Bp7.Props.C02
 #print axioms Bp7.Spec.crc16_check
 #print axioms Bp7.Spec.crc32c_check
 #print axioms Bp7.C02.crcAgree
+#print axioms Bp7.C04.crate_x25_is_crc16
+#print axioms Bp7.C04.crate_castagnoli_is_crc32c
+#print axioms Bp7.C04.primary_crc_is_crate_crc
+#print axioms Bp7.C04.canon_crc_is_crate_crc
+#print axioms Bp7.C04.crate_table_index_in_range16
+#print axioms Bp7.C04.crate_table_index_in_range32
